@@ -19,13 +19,16 @@ Sigs == {"ok", "corrupt"}
 Anchorings == {"anchored", "not-anchored"}
 Certs == {"valid", "expired-since-signing"}
 Tokens == {"present", "absent"}
-VARIABLES token, imprint, sig, anchoring, cert
-vars == <<token, imprint, sig, anchoring, cert>>
-Init == /\ token \in Tokens /\ imprint \in Imprints /\ sig \in Sigs /\ anchoring \in Anchorings /\ cert \in Certs
-        /\ (token = "absent" => imprint = "match" /\ sig = "ok" /\ anchoring = "anchored")
+\* the algorithm the TSA signed the token with: one the validator implements, or one it does not (e.g. ECDSA with SHA-1)
+TsaAlgs == {"supported", "unsupported"}
+VARIABLES token, imprint, sig, anchoring, cert, tsaAlg
+vars == <<token, imprint, sig, anchoring, cert, tsaAlg>>
+Init == /\ token \in Tokens /\ imprint \in Imprints /\ sig \in Sigs /\ anchoring \in Anchorings /\ cert \in Certs /\ tsaAlg \in TsaAlgs
+        /\ (token = "absent" => imprint = "match" /\ sig = "ok" /\ anchoring = "anchored" /\ tsaAlg = "supported")
 Next == UNCHANGED vars
 Spec == Init /\ [][Next]_vars
-Usable == token = "present" /\ imprint = "match" /\ sig = "ok"
+\* a signature that cannot be checked is not a signature that verifies
+Usable == token = "present" /\ imprint = "match" /\ sig = "ok" /\ tsaAlg = "supported"
 TimeFromToken == Usable
 Reported == token = "present" /\ ~Usable          \* a time-stamp problem must be reported
 \* "only when": a usable token is necessary for accepting an expired certificate; whether a usable token of a TSA that is not
@@ -33,7 +36,7 @@ Reported == token = "present" /\ ~Usable          \* a time-stamp problem must b
 Verdict == IF cert = "valid" THEN "accepted"
            ELSE IF ~Usable THEN "not-valid"
            ELSE IF anchoring = "anchored" THEN "accepted" ELSE "either"
-TimeOnlyWhenUsable == TimeFromToken => (imprint = "match" /\ sig = "ok")
+TimeOnlyWhenUsable == TimeFromToken => (imprint = "match" /\ sig = "ok" /\ tsaAlg = "supported")
 ExpiredNeedsUsableToken == (cert = "expired-since-signing" /\ Verdict = "accepted") => Usable
 UnusableNeverRescues == (~Usable /\ cert = "expired-since-signing") => Verdict = "not-valid"
 =============================================================================
